@@ -3,3 +3,4 @@ import MimicProofs.Framing
 import MimicProofs.Wire
 import MimicProofs.Results
 import MimicProofs.Params
+import MimicProofs.Auth
